@@ -213,7 +213,9 @@ func driveJunk(rc *RunCtx) {
 			w.Start(a.start)
 		} else {
 			ev := w.Deliver(a.env)
-			if ev.Err != nil {
+			if ev.Err != nil && rc.Sc.Run%2 == 0 {
+				// half of the runs tear a party down after its first error, the other half keep delivering
+				// the genuine traffic to it as well
 				ev.Node.Silenced = true
 			}
 		}
